@@ -17,12 +17,12 @@ sys.path.insert(0, HERE)
 import common  # noqa: E402
 
 ENGINES = {
-    "C02": ["e1", "e2"], "C03": ["e1", "e4", "e3"], "C04": ["e1", "e2"], "C05": ["e1"], "C06": ["e1", "e3"], "C08": ["e1"],
+    "C02": ["e1", "e2", "e4"], "C03": ["e1", "e4", "e3"], "C04": ["e1", "e2"], "C05": ["e1"], "C06": ["e1", "e3"], "C08": ["e1"],
     "C09": ["e1", "e4"], "C14": ["e1"],
     "C07": ["e3"], "C12": ["e3"], "C13": ["e3", "e2"],
     "C11": ["e4", "e3"], "C15": ["e4", "e2c", "e2"], "C18": ["e4"],
     "C01": ["e2"], "C10": ["e2"], "C20": ["e2", "e2c"], "C19": ["e2c"],
-    "C16": ["e5"], "C17": ["e5", "e2", "e1"],
+    "C16": ["e5"], "C17": ["e5", "e2", "e1", "e4"],
 }
 
 
